@@ -64,6 +64,16 @@ def queryStep (st : St) (tag : String) (isC : Bool) (args : List String) : Optio
       some { st' with out := s!"{tag} 0 6 : {nowText o}" :: st.out, queries := (x, o) :: st.queries }
   | _ => none
 
+/-- `<u16> <7 record ints>`: the generation word and the record of the file at the path are replaced (no answer token) -/
+def pubStep (st : St) (args : List String) : Option St := do
+  match ← ints args with
+  | [g, as, an, vs, vn, b, dr, stt] =>
+    let r : Record := ⟨⟨as, an⟩, ⟨vs, vn⟩, b, dr.toNat, 0, DriverH.statusOfInt stt⟩
+    match st.alts.getLast? with
+    | some a => some { st with alts := st.alts.dropLast ++ [{ a with gen := g.toNat % 65536, cur := r }] }
+    | none => some { st with seg := { st.seg with gen := g.toNat % 65536, cur := r } }
+  | _ => none
+
 def opStep (st : St) (op : List String) : Option St :=
   match op with
   | "w" :: args => do
@@ -94,6 +104,14 @@ def opStep (st : St) (op : List String) : Option St :=
     let s := st.alts.getLast?.getD st.seg
     if s.openable then some { st with c := some { ino := st.alts.length }, out := "co ok" :: st.out }
     else some { st with c := none, out := "co err notinit 0 -" :: st.out }
+  -- the daemon publishes at the call's first clock read: the snapshot was taken before it, so the answer is the one of `q`;
+  -- afterwards the file at the path carries the given generation and record
+  | "qw" :: a :: b :: c :: d :: rest => do
+    let st' ← queryStep st "q" false [a, b, c, d]
+    pubStep st' rest
+  | "cqw" :: a :: b :: c :: d :: rest => do
+    let st' ← queryStep st "cq" true [a, b, c, d]
+    pubStep st' rest
   | "q" :: args => queryStep st "q" false args
   | "cq" :: args => queryStep st "cq" true args
   -- the same call N times: nothing changes in between, so N identical answers (`snapshot` is idempotent on a
@@ -136,7 +154,7 @@ def line (args impl : List String) : String :=
       let outs : List (ClientIn × Option Outcome) := pairs.map fun (xo, la) => (xo.1, parseOut la.2)
       if outs.any (fun p => p.2.isNone) then
         -- an answer that is not a result of now() at all (e.g. an error kind the client does not have)
-        s!"{model} | C05:FAILS C06:FAILS C14:FAILS C12:FAILS C17:FAILS C03:FAILS oracle:unparsed | session"
+        s!"{model} | C05:FAILS C06:FAILS C14:FAILS C12:FAILS C17:FAILS C03:FAILS C01:FAILS oracle:unparsed | session"
       else
         let os : List (ClientIn × Outcome) := outs.filterMap fun p => p.2.map fun o => (p.1, o)
         let v05 := DriverH.verdict "C05" (os.any fun p => C05.applicable p.1) (os.all fun p => !C05.applicable p.1 || C05.Holds p.1 p.2)
@@ -150,7 +168,10 @@ def line (args impl : List String) : String :=
         -- latest complete one when nothing is in flight), and repeating a call changes nothing
         let repsOk := (DriverH.splitSemi impl).all fun g => g.head? != some "rep" || g == ["rep", "same"]
         let v03 := DriverH.verdict "C03" (!pairs.isEmpty) (repsOk && pairs.all fun p => p.2.2 == (nowText p.1.2).splitOn " ")
-        let multi := if qs.length ≥ 4 then ["multiCall"] else []
+        -- C01 (and C12): a record published after the clock was read is not applied to that reading
+        let hasQw := ops.any (fun o => o.head? == some "qw" || o.head? == some "cqw")
+        let v01 := DriverH.verdict "C01" hasQw (pairs.all fun p => p.2.2 == (nowText p.1.2).splitOn " ")
+        let multi := (if qs.length ≥ 4 then ["multiCall"] else []) ++ (if hasQw then ["pubDuringCall"] else [])
         let aged := if os.any (fun p => decide (p.1.mono.toNs - p.1.r.asOf.toNs > (5000000000 : Int)) && (p.1.r.status != .unknown)) then ["aged"] else []
         let bad := if os.any (fun p => decide (p.1.r.drift ≥ 1000000000)) then ["badDrift"] else []
         let blur := if os.any (fun p => decide (p.1.mono.toNs < p.1.r.asOf.toNs)) then ["nearBlur"] else []
@@ -158,6 +179,6 @@ def line (args impl : List String) : String :=
           (if ops.any (fun o => o.head? == some "x") then ["replaced"] else []) ++
           (if ops.any (fun o => o.head? == some "qn" || o.head? == some "cqn") then ["repeated"] else [])
         let growth := if os.any (fun p => decide (p.1.mono.toNs > p.1.r.asOf.toNs ∧ p.1.r.drift > 0 ∧ p.1.r.drift < 1000000000 ∧ C05.exactGrowth p.1 ≥ 1)) then ["growth"] else []
-        s!"{model} | {v05} {v06} {v14} {v12} {v17} {v03} | {String.intercalate "," (["session"] ++ multi ++ aged ++ bad ++ blur ++ odd ++ growth)}"
+        s!"{model} | {v05} {v06} {v14} {v12} {v17} {v03} {v01} | {String.intercalate "," (["session"] ++ multi ++ aged ++ bad ++ blur ++ odd ++ growth)}"
 
 end ClockBound.DriverS
